@@ -35,6 +35,8 @@ def fail_coq(f):
         return "NoFail"
     if f["kind"] == "modeq":
         return "(FailModEq %s %s)" % (z(f.get("m", 0)), z(f.get("r", 0)))
+    if f["kind"] == "ge":
+        return "(FailGe %s)" % z(f.get("m", 0))
     return "(FailIn %s)" % vlib.zlist(f.get("xs") or [])
 
 
